@@ -42,7 +42,7 @@ def budget(tier):
 
 
 def wall_cap(tier):
-    return 240 if tier == "quick" else 3600
+    return 240 if tier == "quick" else 1500
 
 
 # -- pools --------------------------------------------------------------------------------------
@@ -677,3 +677,17 @@ def _coincidence(plan, viol):
 
 
 KNOWN = {"identifier-coincidence": _coincidence}
+
+
+def mutate(plan, rng):
+    from ..driver import mutate_ops
+
+    p = mutate_ops(plan, rng)
+    for a in sorted(p["actors"]):
+        if not any(o["op"] == "close" and o.get("actor") == a for o in p["ops"][-len(p["actors"]):]):
+            p["ops"].append({"op": "close", "actor": a})
+    if rng.random() < 0.2:
+        a = rng.choice(sorted(p["actors"]))
+        p["actors"][a] = rng.choice(KINDS)
+    p.pop("systematic", None)
+    return p
